@@ -259,7 +259,9 @@ def fmt_agree(ctx, lexpr):
     a = closure_sink_methods("print::Formatter::write_bytes")
     b = closure_sink_methods("<print::CustomizedFormatter as print::Formatter>::write_bytes")
     b_scheme = [m for m in b]
-    if a and set(a) <= set(b_scheme):
+    if not a and not b_scheme:
+        r.ok("write_bytes passes no element closures that write to the sink (element writers are compared by the traces above)")
+    elif a and set(a) <= set(b_scheme):
         r.ok("write_bytes element closures use the same sink methods %s" % a)
     else:
         r.violation("print::Formatter::write_bytes", "closure-sink-methods",
